@@ -430,6 +430,42 @@ def gen_heap(rng):
     return {"market_id": mid, "tick": tick, "mp0": ref, "ops": ops, "mode": "heap"}
 
 
+def gen_quiet(rng):
+    """quiet steps: a market (running, sometimes switched) with quotes on both sides that do not cross - a mid price, no trade for a
+    while, sometimes one trade early on - and then SEVERAL clock steps with nothing, or only a cancel, in between; every recorded series
+    is read before and after each clock step, so whatever a quiet step writes into a step that is already over shows"""
+    tick = rng.choice(DYADIC_TICKS)
+    ref = rng.choice([100.0, 300.0])
+    mid = rng.randint(0, 3)
+    ops = [("tick", ref), ("run", rng.random() < 0.8)]
+    n = 0
+    for k in range(rng.randint(1, 3)):
+        ops.append(("add", rng.randint(0, 4), mid, True, ref - tick * rng.randint(2, 9), rng.randint(1, 3), rng.choice([None, None, 2, 5])))
+        ops.append(("add", rng.randint(0, 4), mid, False, ref + tick * rng.randint(4, 15), rng.randint(1, 3), rng.choice([None, None, 2, 5])))
+        n += 2
+    if rng.random() < 0.25:
+        ops.append(("add", rng.randint(0, 4), mid, True, ref + tick * 20, 1, None))       # one trade, early
+        ops.append(("exec",))
+        n += 1
+    ops += [("qstate",), ("qseries",)]
+    t = 0
+    for _ in range(rng.randint(2, 6)):
+        ops.append(("tick", ref + tick * rng.randint(-2, 2)))
+        t += 1
+        ops += [("qseries",), ("qat", rng.randint(0, t))]
+        r = rng.random()
+        if r < 0.2:
+            ops.append(("cancel", rng.randrange(n)))
+        elif r < 0.3:
+            ops.append(("run", rng.random() < 0.7))
+        elif r < 0.4:
+            ops.append(("add", rng.randint(0, 4), mid, rng.random() < 0.5, ref - tick * rng.randint(10, 14), 1, None))
+            n += 1
+        ops.append(("qstate",))
+    ops.append(("qseries",))
+    return {"market_id": mid, "tick": tick, "mp0": ref, "ops": ops, "mode": "quiet"}
+
+
 def gen_churn(rng):
     """continuous trading against a deep book: 8-16 small resting orders on one side at a few price levels (many ties), then a series
     of small aggressive limit orders on the other side at resting levels, a matching round and an observation after each - every round
@@ -661,6 +697,10 @@ class SuiteM(engine.Suite):
         hint = getattr(self, "search_modes", None) if tier == "search" else None
         for _ in range(n):
             cases.append(gen_history(rng, rng.choice(lens), mode=(rng.choice(hint) if hint and rng.random() < 0.8 else None)))
+        # quiet-step histories, appended from a stream of their own: the cases above stay what they were
+        rq = random.Random(("M-quiet", seed, tier).__repr__())
+        for _ in range(max(4, n // 25)):
+            cases.append(gen_quiet(rq))
         return cases
 
     def load_case(self, obj):
